@@ -37,7 +37,8 @@ class _ValueEq:
         )
 
     def __hash__(self):
-        return hash(("value-eq", getattr(self, "sim_tag", None)))
+        # integers only: their hashes do not depend on PYTHONHASHSEED
+        return hash((7919, getattr(self, "sim_tag", -1)))
 
 
 class EqVertex(_ValueEq, Vertex):
@@ -46,6 +47,24 @@ class EqVertex(_ValueEq, Vertex):
 
 class EqUniverse(_ValueEq, Universe):
     """Universes that compare equal by value."""
+
+
+class HandoverVertex(Vertex):
+    """
+    User code inside the vertex<->link protocol: when this vertex is taken off
+    a link it hands the link to its heir (an override that calls super() and
+    then calls back into the library on the same link).
+    """
+
+    def remove_from_link(self, link):
+        super().remove_from_link(link)
+        heir = vars(self).get("heir")
+        if heir is not None and not vars(self).get("_handing"):
+            self._handing = True
+            try:
+                heir.add_to_link(link)
+            finally:
+                self._handing = False
 
 
 class SlottedVertex(Vertex):
@@ -127,6 +146,7 @@ VERTEX_CLASSES = {
     "FalsyVertex": FalsyVertex,
     "SlottedVertex": SlottedVertex,
     "EqVertex": EqVertex,
+    "HandoverVertex": HandoverVertex,
 }
 UNIVERSE_CLASSES = {
     "Universe": Universe,
